@@ -7,6 +7,7 @@ from .common import EXPONENTS, PREFIX, And, Case, Not, Or, call, check_names, ex
 from .common import close as plain_close
 from .unitterms_common import (A, Dv, M, Mono, P, S, build, catalogue, depth, dimvec, eval_expr, exponent_value, fpow, fstr, lcm, mono,
                                mono_dimvec, mono_scale, numeric_coefficient, positive_scale, root_degree, tid)
+from .unitterms_common import RATIO_PAIRS, atoms_of, table_unit
 from .unitterms_common import mclose as close
 
 LEVEL = "other"
@@ -43,10 +44,10 @@ BOUNDS = {
     "quick": "atoms {xa, xb, xc, kxa}; all 88 terms of depth <= 1 with every p in E given as Fraction/float/sympy Rational/numpy float, 260 seeded "
              "terms of depth 2 and 260 of depth 3 (root degree <= 36); the 88 shallow terms again in the root-witness encoding; power-of-power over "
              "E x E for 14 terms; all 16 atom pairs + 150 seeded pairs; all 64 atom triples + 100 seeded triples; 31 symbolic + 31 table equality "
-             "cases, 2 symbolic offset-pair cases; 12 hash cases; 150 simplify and 40 cached-rule cases; guards: 11 units x 11 partners x 4 operators, "
+             "cases, 2 symbolic offset-pair cases; 12 hash cases + 36 registry-history hash cases (8 expressions x 6 histories of add/modify/remove, 10 ways to rebuild at every point; ground); 260 simplify (incl. 22 same-dimension table pairs, 18 of non-integer ratio, in 5 forms each) and 40 cached-rule cases; guards: 11 units x 11 partners x 4 operators, "
              "26 powers of 11 units; 4 unit-with-number cases",
     "thorough": "same atoms; 1800 seeded terms of depth 2 and 1800 of depth 3; power-of-power over E x E for 40 terms; 1000 seeded pairs, 1000 seeded "
-                "triples; 900 simplify and 300 cached-rule cases; equality, hash and guard tables as in quick; all ordered pairs of the 145 table atoms (ground)",
+                "triples; 1000 simplify and 300 cached-rule cases; equality, hash and guard tables as in quick; all ordered pairs of the 145 table atoms (ground)",
 }
 OUTSIDE = ("IEEE rounding (A1); cancellation inside simplify() with symbolic scales (table units there: ground obligations); term shapes "
            "beyond the catalogue (depth > 3, root degree > 36); units of non-positive scale; hash equality of *different* spellings of "
@@ -57,7 +58,7 @@ ASSUMPTIONS = ["MonoReal (harness/unitterms_common.py): a positive scale symbol 
                "same power product to their rational coefficients, are harness code"]
 CONFORM = {"quick": 40, "thorough": 120}
 
-NAMES = ["xa", "xb", "xc", "xd", "xn", "xq", "xt", "xu", "xg", "xl", "xz"]
+NAMES = ["xa", "xb", "xc", "xd", "xn", "xq", "xq2", "xt", "xu", "xg", "xl", "xz"]
 ATOMS = ["xa", "xb", "xc", "kxa"]
 ATOM_DEF = {"kxa": Mono(Fraction(1000), {"xa": Fraction(1)})}
 FORMS = ["frac", "float", "sympy", "npfloat"]
@@ -120,7 +121,7 @@ def make_env(ctx, extra=(), N=1, witness=False):
         elif n in TABLE:
             scale_of[n], dimvec_of[n] = TABLE[n]
         else:
-            raise KeyError(n)
+            scale_of[n], dimvec_of[n] = table_unit(n)
     env = _Env(Unit, reg)
     return reg, env, scale_of, dimvec_of
 
@@ -158,7 +159,7 @@ def _prefix_lookup(scale_of, dimvec_of):
             return scale_of["xa"] * PREFIX["k"], dict(dimvec_of["xa"])
         if n in TABLE:
             return TABLE[n][0], dict(TABLE[n][1])
-        raise KeyError(n)
+        return table_unit(n)
     return lookup
 
 
@@ -426,6 +427,78 @@ def make_hash_case(s):
 HASH_STRINGS = ["xa", "kxa", "xa*xb", "xb*xa", "xa**2/xc", "xa**(1/2)*xb**(-3/2)", "kxa/xa", "sqrt(xa*xb)/xc", "xa*m", "J/xc", "1/xc", "xa**0.5"]
 
 
+# ----------------------------------------------------------------------------- hash across a registry history
+
+HIST_EXPRS = ["xa", "kxa", "xa*xb", "xa**2/xc", "sqrt(xa*xb)/xc", "xa*m", "J/xc", "1/xb"]
+HISTORIES = [("add",), ("modify",), ("remove",), ("add", "modify", "remove"), ("modify", "modify", "add"), ("remove", "add", "modify")]
+
+
+def make_hashhist_case(s, history):
+    """Hash consistency over the life of a registry: the registry is edited through its real add/modify/remove (always a symbol that
+    does not occur in the expression, new values symbolic), and at every point of the history every unit that denotes the expression
+    - objects built before any edit, objects built at earlier points, objects built now by string (warm and cold unit-object cache),
+    from the sympy expression, as Unit(u), u**1, u*1, u/1, 1*u, (u*xa)/xa (and u.copy() at the initial point) - must be equal, carry the identical expression and
+    the SAME hash when asked now, collapse to one element in a set and find each other in a dict. Hashes, set sizes and dict hits are
+    concrete values: ground checks; the solver's share is the equality of the scales."""
+    def h(ctx):
+        reg, env, scale_of, dimvec_of = make_env(ctx, ["xd"], N=2)
+        Unit = ctx.mods["unyt"].Unit
+        D = ctx.mods["unyt"].dimensions
+        one = Unit(registry=reg)
+
+        def builds(tag):
+            a = Unit(s, registry=reg)                      # warm cache: may be the very first object
+            out = [(f"{tag} string", a)]
+            reg._unit_object_cache.pop(s, None)
+            out.append((f"{tag} string, cold cache", Unit(s, registry=reg)))
+            out.append((f"{tag} from expr", Unit(a.expr, registry=reg)))
+            out.append((f"{tag} Unit(u)", Unit(a, registry=reg)))
+            out.append((f"{tag} u**1", a ** 1))
+            out.append((f"{tag} u*1", a * one))
+            out.append((f"{tag} 1*u", one * a))
+            out.append((f"{tag} u/1", a / one))
+            xa = Unit("xa", registry=reg)
+            out.append((f"{tag} (u*xa)/xa", (a * xa) / xa))
+            if tag == "initial":
+                # Unit.copy() binds the copy to a shallow copy of the registry that shares the table and the unit-object cache but keeps
+                # its own, never invalidated, system id, and later copy() calls get that first copy back from the shared cache (the known
+                # C12/C13 findings): a copy is compared at the initial point only
+                out.append((f"{tag} copy", a.copy()))
+            return out
+
+        def check(point, units):
+            ref_l, ref = units[0]
+            hs = [hash(u) for _, u in units]
+            bad_hash = [l for (l, u), hh in zip(units, hs) if hh != hs[0]]
+            ctx.require(f"hash history ({point}): every unit denoting the expression has the same hash now", not bad_hash, differ_from=ref_l, differing=bad_hash)
+            ctx.require(f"hash history ({point}): identical expressions", all(u.expr == ref.expr for _, u in units))
+            ctx.require(f"hash history ({point}): all equal (scale for all scales, offset, dimension)",
+                        And(*[And(bool(u == ref), bool(ref == u), close(u.base_value, ref.base_value)) for _, u in units]))
+            ctx.require(f"hash history ({point}): a set keeps one element", len({u for _, u in units}) == 1, size=len({u for _, u in units}))
+            d = {ref: "found"}
+            ctx.require(f"hash history ({point}): dict lookups with equal units hit", all(d.get(u) == "found" for _, u in units),
+                        missed=[l for l, u in units if d.get(u) != "found"])
+            ctx.require(f"hash history ({point}): hash is stable between two calls", [hash(u) for _, u in units] == hs)
+            ctx.observe(f"{point}: distinct hashes", len(set(hs)))
+
+        alive = builds("initial")
+        check("initial", alive)
+        n_add = 0
+        for i, edit in enumerate(history):
+            point = f"after {'+'.join(history[:i + 1])}"
+            if edit == "add":
+                n_add += 1
+                reg.add(f"xq{'' if n_add == 1 else n_add}", positive_scale(ctx, f"tq{n_add}", 2), D.force)
+            elif edit == "modify":
+                reg.modify("xn" if "xn" in reg.lut else "xd", positive_scale(ctx, f"tm{i}", 2)) if "xd" in reg.lut else reg.modify("xq", positive_scale(ctx, f"tm{i}", 2))
+            elif edit == "remove":
+                reg.remove("xd") if "xd" in reg.lut else reg.remove("xq")
+            alive = [(l, u) for l, u in alive if not l.endswith(" copy")] + builds(point)
+            check(point, alive)
+    name = s.replace("/", ":").replace("*", ".")
+    return Case(f"C05/hashhist/{'+'.join(history)}/{name}", h, group="hash")
+
+
 # ----------------------------------------------------------------------------- simplify / as_coeff_unit / cached unit rules
 
 TAB_ATOMS = ["m", "cm", "km", "g", "kg", "s", "ms", "J", "erg", "N", "dyn", "inch", "min"]
@@ -436,7 +509,7 @@ def make_simp_case(t, idx):
     N = root_degree(t)
 
     def h(ctx):
-        reg, env, scale_of, dimvec_of = make_env(ctx, [n for n in names if n in TABLE], N=N)
+        reg, env, scale_of, dimvec_of = make_env(ctx, [n for n in names if n not in ("xa", "xb", "xc", "kxa")], N=N)
         Unit = ctx.mods["unyt"].Unit
         m = mono_expand(t)
         want = mono_scale(m, scale_of)
@@ -450,6 +523,9 @@ def make_simp_case(t, idx):
         ctx.require("simplify: the new expression denotes the same scale", close(es, want))
         ctx.require("simplify: the new expression denotes the same dimension", And(ed == wd, dimvec(v.dimensions) == wd))
         ctx.require("simplify: equal to the unit before", bool(v == u0))
+        v0 = u0.simplify()
+        ctx.require("simplify: a new object, the unit it was called on keeps its expression and scale",
+                    And(v0 is not u0, v0.expr == v.expr, u0.expr == before[0], close(u0.base_value, want)))
         ctx.require("simplify: offset", exact_eq(v.base_offset, 0.0))
         e1 = v.expr
         v2 = v.simplify()
@@ -471,8 +547,14 @@ def make_simp_case(t, idx):
 
 def cancels_symbolically(names):
     """would simplify() meet a cancelling pair with a symbolic scale (not executable: sympy cannot hold the solver term)"""
-    return (("xa" in names or "kxa" in names) and bool(names & {"m", "cm", "km", "mm", "inch"})) or ("xb" in names and bool(names & {"g", "kg"})) \
-        or ("xc" in names and bool(names & {"s", "ms", "min"})) or ("xa" in names and "kxa" in names)
+    sym = {"xa": {L_: F(1)}, "kxa": {L_: F(1)}, "xb": {M_: F(1)}, "xc": {T_: F(1)}}
+    have = [sym[n] for n in names if n in sym]
+    if "xa" in names and "kxa" in names:
+        return True
+    for n in names:
+        if n not in sym and any(table_unit(n)[1] == d for d in have):
+            return True
+    return False
 
 
 def _atoms(t):
@@ -485,7 +567,7 @@ def make_rule_case(t1, t2, idx):
     N = lcm(root_degree(t1), root_degree(t2)) * 6
 
     def h(ctx):
-        reg, env, scale_of, dimvec_of = make_env(ctx, [n for n in names if n in TABLE], N=N)
+        reg, env, scale_of, dimvec_of = make_env(ctx, [n for n in names if n not in ("xa", "xb", "xc", "kxa")], N=N)
         UA = ctx.mods["UA"]
         m1, m2 = mono_expand(t1), mono_expand(t2)
         u, v = build(t1, env, ctx.mods, reg), build(t2, env, ctx.mods, reg)
@@ -514,6 +596,14 @@ def make_rule_case(t1, t2, idx):
     return Case(f"C05/rule/{idx:03d}/{tid(t1)},{tid(t2)}", h, group="rule")
 
 
+def sym_bystander(table_name):
+    """a symbolic atom whose dimension differs from the table unit's, so that it never cancels against it"""
+    d = table_unit(table_name)[1]
+    for n, dv in (("xc", {T_: F(1)}), ("xa", {L_: F(1)}), ("xb", {M_: F(1)})):
+        if dv != d:
+            return n
+
+
 def simp_terms(n, seed=11):
     """terms over table atoms (cancelling pairs: concrete scales) and the symbolic xc (time never cancels against them... except s, ms, minute:
     those are kept out of terms containing xc)"""
@@ -526,6 +616,11 @@ def simp_terms(n, seed=11):
         Dv(A("m"), A("m")), Dv(M(A("xc"), A("km")), A("mm")),
         M(M(A("xa"), A("xb")), P(A("xc"), -2)), Dv(P(A("xa"), 2), A("xa")), M(A("xa"), A("xb")),
     ]
+    for a, b in RATIO_PAIRS:
+        c = sym_bystander(a)
+        hand += [Dv(A(a), A(b)), Dv(A(b), A(a)), M(M(A(a), P(A(b), -1)), A(c)), Dv(P(A(a), 2), A(b)), Dv(A(c), Dv(A(a), A(b)))]
+    hand += [M(Dv(A("yr"), A("day")), A("m")), Dv(M(A("mile"), A("inch")), M(A("km"), A("cm"))), P(Dv(A("mile"), A("km")), 2), P(Dv(A("inch"), A("cm")), F(1, 2)),
+             Dv(M(A("lb"), A("ft")), M(A("kg"), A("m")))]
     out = list(hand)
     pool = [A(a) for a in TAB_ATOMS]
     while len(out) < n:
@@ -634,8 +729,7 @@ def make_guard_binary_case(g, partner):
     """oracle (independent): call X 'special' if its offset is non-zero or its dimension is logarithmic.
     X*Y (either order): both plain -> ordinary product; exactly one special -> defined iff the other one is a dimensionless unit
     (scales multiply, dimension of the special one; offset kept when the dimensionless factor has scale 1); both special -> raises.
-    X/Y: Y special -> raises (for a logarithmic Y under a dimensionless X only the consistency law u**-1 vs 1/u of the pow case is
-    asserted); X special -> defined iff Y is a dimensionless unit. 'raises' means InvalidUnitOperation."""
+    X/Y: Y special -> raises; X special -> defined iff Y is a dimensionless unit. 'raises' means InvalidUnitOperation."""
     def h(ctx):
         reg, gu, (gs, go, gdim), pu, (ps, po, pdv) = guard_env(ctx, g, partner)
         exc = ctx.mods["unyt"].exceptions.InvalidUnitOperation
@@ -665,8 +759,6 @@ def make_guard_binary_case(g, partner):
                 want_s, want_d = gs / ps, vec(gdv, pdv, -1)
             else:
                 allowed = (not g_special) and (not p_special or False)
-                if g_log and p_dimless and not p_special:
-                    allowed = None      # dimensionless over logarithmic: see the consistency law in the pow case
                 want_s, want_d = ps / gs, vec(pdv, gdv, -1)
             if allowed and op != "p/g":
                 want_o = (go if (g_special and unit_scale) else (0.0 if not g_special else None))
@@ -840,7 +932,10 @@ def cases(tier, mods):
         out.append(make_table_eq_case(a, b, want))
     for s in HASH_STRINGS:
         out.append(make_hash_case(s))
-    st = simp_terms(150 if quick else 900)
+    for hist in HISTORIES:
+        for s in (HIST_EXPRS if (not quick or len(hist) > 1) else HIST_EXPRS[:4]):
+            out.append(make_hashhist_case(s, hist))
+    st = simp_terms(260 if quick else 1000)
     for i, t in enumerate(st):
         out.append(make_simp_case(t, i))
     i = 0
